@@ -137,7 +137,7 @@ func runC18(c *Ctx) {
 				continue
 			}
 			_, del := hasLit(s, mustRe(`^call:delete$`))
-			_, allowed := hasLit(s, mustRe(`^phi:is_allowed$|^rpc\.allow_sign_\w+$`))
+			_, allowed := hasLit(s, mustRe(`^phi:is_allowed(~\d+)?$|^rpc\.allow_sign_\w+$`))
 			if !del && !allowed {
 				okA = false
 				detail = "a loop iteration keeps a protected method without is_allowed: " + strings.Join(guardLits(s), "; ")
